@@ -50,7 +50,15 @@ def solver_call_options(w, backend):
 
 
 def default_values(case):
-    return pipeline.default_values()
+    # the fragments of the history draw their own (prefixed) parameters: they get the defaults too, so that their solves
+    # behave as in the symbolic run (a fragment whose SDP is unsolvable numerically would end before the step that matters)
+    out = []
+    for dv in pipeline.default_values():
+        d = dict(dv)
+        for k in range(3):
+            d.update({"A%d_%s" % (k, n): v for n, v in dv.items()})
+        out.append(d)
+    return out
 
 
 def _s(v):
@@ -133,7 +141,7 @@ FRAGMENTS = [
     ('qg', dict(fclass='qg', steps=['grad'], stationary=False)),
     ('null-accumulate', dict(fclass='ssc', steps=['grad', 'grad'], null_accumulate=True)),
 ]
-ENDINGS = ['solved', 'solved-verbose', 'failed', 'exception', 'abandoned', 'solved-with-options']
+ENDINGS = ['solved', 'solved-verbose', 'failed', 'exception', 'abandoned', 'solved-with-options', 'solve-raised']
 
 
 _HELD = []      # earlier models the "user" still references (released in the middle of B's second construction)
@@ -161,7 +169,13 @@ def run_fragment(env, name, spec, ending, backend, idx):
         elif ending == 'failed':
             from PEPit import Expression
             m.pep.set_performance_metric(Expression())      # a free leaf: really unbounded
-        if ending == 'solved-with-options':
+        if ending == 'solve-raised':
+            # the user's solve call fails with the documented ValueError (a typo in an option) and the user moves on
+            try:
+                m.pep.solve(wrapper=backend, verbose=0, dimension_reduction_heuristic="tracee")
+            except ValueError:
+                pass
+        elif ending == 'solved-with-options':
             # solver options of an earlier model (accuracy, iteration limit, solver log) belong to that call only
             m.pep.solve(wrapper=backend, verbose=2, **(dict(solver='SCS', eps=1e-3, max_iters=50000)
                                                       if backend == 'cvxpy' else {}))
